@@ -138,7 +138,7 @@ pub(crate) mod proofs {
         // ---- publish (setter variant) -----------------------------------------------------------------------
         // @props C01 C02 C15 C16
         #[kani::proof] #[kani::unwind($unw)] #[kani::stub(std::hint::spin_loop, noop)]
-        fn publish_with_setter() {
+        fn publish_with_setter() {   // also C04: report-after-publish is what orders the channels' wake-up after the publication
             let (q, s, before) = any_queue::<N>();
             kani::assume(s.resv == 0 || s.len + s.resv == N as u32);
             let x: u32 = kani::any();
@@ -146,14 +146,16 @@ pub(crate) mod proofs {
             let reported_len = std::cell::Cell::new(0u32);
             let report_calls = std::cell::Cell::new(0u32);
             let full_calls   = std::cell::Cell::new(0u32);
+            let visible_at_report = std::cell::Cell::new(u32::MAX);
             let ret = q.publish(|slot| { *slot = x; setter_calls.set(setter_calls.get() + 1); },
                                 || { full_calls.set(full_calls.get() + 1); false },
-                                |len| { reported_len.set(len); report_calls.set(report_calls.get() + 1); });
+                                |len| { reported_len.set(len); report_calls.set(report_calls.get() + 1); visible_at_report.set(q.available_elements_count() as u32); });
             let after = buffer_of(&q);
             if s.len + s.resv < N as u32 {
                 assert!(ret.is_none(),                                      "accepted: setter consumed");
                 assert!(setter_calls.get() == 1,                            "accepted: setter applied exactly once");
                 assert!(report_calls.get() == 1 && reported_len.get() == s.len + 1, "accepted: len_after reported once");
+                assert!(visible_at_report.get() == s.len + 1,                "accepted: the length is reported (channels wake a consumer from this callback) only AFTER the element is visible to consumers");
                 assert!(full_calls.get() == 0,                              "accepted: full never reported");
                 assert!(counters_are(&q, RingState { len: s.len + 1, ..s }), "accepted: seq' = seq.push(x)");
                 let idx = (s.origin.wrapping_add(s.len)) as usize % N;
